@@ -4,9 +4,10 @@ pub fn trunc(&self) -> Self
     requires
         B >= 2,
         !(self.repr.significand.v() == 0 && self.repr.exponent != 0),          // finite (documented panic otherwise)
-        // machine ranges (memory limits; overflow of isize in `exponent + digits` is outside this contract)
-        -0x1000_0000_0000_0000 < self.repr.exponent,
-        ndigits(B as int, self.repr.significand.v()) < 0x1000_0000_0000_0000,
+        // machine ranges: `-exponent` fits isize (overflow of isize is outside this contract), fewer than 2^56 digits
+        // (memory limit; `digits_ub() as isize` does not wrap)
+        isize::MIN < self.repr.exponent,
+        ndigits(B as int, self.repr.significand.v()) < 0x100_0000_0000_0000,
     ensures
         // C10: the result is the integral part t of the exact value (towards zero): s == t * B^(-e) + l, |l| < B^(-e),
         // l == 0 or sign(l) == sign(s)  [fract() returns l * B^e of the same unique split, so trunc + fract == x]
@@ -35,11 +36,13 @@ pub fn trunc(&self) -> Self
         }
 
         let shift = (-self.repr.exponent) as usize;
+        /*@ proof { assert(pos_room(shift as int)); } // resource precondition of shr_digits: at most 2*digits + 3 < 2^58 positions @*/
         let signif = shr_digits::<B>(&self.repr.significand, shift);
         /*@ let ghost sv = signif.v();
         proof {
             let lo = choose|lo: int| #[trigger] is_trunc_divrem(s, ipow(b, shift as nat), sv, lo);
             assert(fl_split(b, s, e, sv, lo));
+            lemma_split_exp_room(b, s, shift as nat, sv, lo, 0);   // room for Repr::new (resource limit, C16)
         } @*/
         let context = Context::new(self.context.precision.saturating_sub(shift));
         FBig::new(Repr::new(signif, 0), context)
